@@ -3,6 +3,11 @@
 LEAN_TB = "Lean 4.33.0 kernel (axioms allowed: propext, Classical.choice, Quot.sound; witnesses by `decide +kernel`)"
 HARNESS_TB = "correspondence check: harness/ (Rust, in-process calls into /repo's public API) | tgdriver (compiled Lean model), compared per case"
 
+def _c15_extra(req, tier, seed):
+    from . import c15cli
+    return c15cli.run(req, tier, seed)
+
+
 SPECS = {
     "C20": dict(
         groups=["graph"],
@@ -128,6 +133,24 @@ SPECS = {
         exhaustive_scope={"quick": "depth<=2 over 7 leaf classes (binary constructors capped at 12 sub-terms)", "thorough": "depth<=3 (binary constructors capped at 40 sub-terms)"},
         partial=["C10_shapes_agree_partial / C10_partial: full statement minus HashSet/BTreeSet (K10a: z.set) and Result (K10b: union with an error object); C10_never_rejected_partial covers Result, excludes sets",
                  "the schema side (Z.zodShape) is tied to render_type by the per-case oracle, not by a printer theorem; the declaration side is tied to the C05 denotation by C10_declaration_is_denotation"]),
+    "C15": dict(groups=["attrfuzz", "robust"], extra=_c15_extra, abort_is_violation=True, extra_group="robust", needs_cli=True,
+        only_oracles=["nopanic", "isolated", "result_ok_or_err"],
+        theorems="Typegen.Theorems.C15",
+        trusted_base=[LEAN_TB, HARNESS_TB,
+                      "modelled, not verified (runtime): syn / proc_macro2 (parsing arbitrary text), tera (rendering), walkdir, the thread stack (recursion depth on deeply nested input), the allocator; these are exercised by the corpus and fuzz runs only",
+                      "B.from? / B.to? / B.slice? / B.findB are the model of Rust's str slicing and str::find on UTF-8 (panic = none); Char.utf8Size is Lean's",
+                      "op robustSrc has no model-side computation (Lean has no Rust parser): its expected outcome (no panic, Ok or Err, output independent of unparsable files) is what the theorems state about the model; the driver only evaluates these oracles on the observation"],
+        assumptions=["files are valid UTF-8 (the statement's domain)", "a panic is observed as a caught unwind in-process, as exit status 101 / a signal / 'panicked at' on stderr at CLI level; aborts kill the harness process and are attributed to the case being run",
+                     "the proved scanner is parse_rename (the only one with a computed offset and a loop) plus the guarded fixed-offset slices of type_resolver.rs; the other find-based scanners (validator_parser.rs) are tied by the attrfuzz correspondence with the C11 models and by the corpus runs"],
+        rule="attrfuzz: serde / validate attribute values built from scanner keywords, runs of ASCII and multi-byte white space (U+0085, U+00A0, U+2003, U+3000), quotes, backslashes, parentheses, multi-byte letters, through the real field/variant/validator parsers, compared with the Lean scanner models (6 000 quick / 60 000 thorough); "
+             "robust: (1) grammar-generated files of exotic items (generic/lifetime/const parameters, raw and non-ASCII identifiers, exotic and malformed types, macros, nested modules, impl methods, tuple/unit structs, unions, attribute soup) whose defined types are referenced by a command, "
+             "(2) text that is not Rust (18 shapes + soup) in .rs and other files at several directory depths beside good files, "
+             "(3) every .rs file of /repo and of the cargo registry sources (quick: all of /repo + every 37th registry file, rotating with the seed; thorough: all ~11 000) as is, 'commandified' (every top-level fn a command, every type serde-derived), truncated at a random offset and with random deletions/insertions; "
+             "each tree is analysed and generated in both modes inside catch_unwind beside a fixed good file, and again without the files that do not parse (isolation = identical output); "
+             "(4) the real CLI binary on a sample of the trees (60 quick / 400 thorough, both modes): exit status in {0,1}, no panic message; non-trivial = tree with >=2 files; distinct = hash of the input",
+        exhaustive={"quick": False, "thorough": True},
+        exhaustive_scope={"thorough": "every .rs file of /repo and of the cargo registry (as is + 3 transformations)"},
+        partial=["C15 is a statement about the runtime (syn, tera, the stack): proved are the index arithmetic of parse_rename for all token strings (refinement of the character-level model, no slice panics), the guarded fixed-offset slices, and isolation of unparsable files in the analysis model; everything else is corpus / fuzz evidence, not proof"]),
     "C03": dict(groups=["project"], only_oracles=["c03_wrappers"], excluded_classes=['unsupportedType', 'undefinedNamedType', 'undocumentedItemShape', 'duplicateTypeNames', 'duplicateCommandNames', 'K18a_mappedAndDefined', 'K01a_reservedOrIllegalFnName'], theorems="Typegen.Theorems.C03",
         trusted_base=[LEAN_TB, HARNESS_TB,
                       "project-level tie: the harness renders a project IR to Rust source files, runs the real CommandAnalyzer + generators on them and hands the IR (annotated with the token text proc_macro2 prints for every attribute and the generic tree of every type) to the Lean model; compared: the whole analysis (commands, parameters, channels, events, discovered types, dependency sets) and the text of all four generated files modulo whitespace and the header comment",
